@@ -1626,6 +1626,11 @@ func (e *executor) executeRowBSIGroupShard(ctx context.Context, index string, c 
 			return nil, errors.New("Row(): BETWEEN condition requires exactly two integer values")
 		}
 
+		// An interval without any integer in it, e.g. 0 <= x < 0.
+		if predicates[0] > predicates[1] {
+			return NewRow(), nil
+		}
+
 		// The reason we don't just call:
 		//     return f.RowBetween(fieldName, predicates[0], predicates[1])
 		// here is because we need the call to be shard-specific.
